@@ -79,14 +79,16 @@ def is_one(node):
 class Ctx(object):
     """Translation context: variable types and special names."""
 
-    def __init__(self, vars=None, self_attrs=None, elementwise=None, agg=None):
+    def __init__(self, vars=None, self_attrs=None, elementwise=None, agg=None, helpers=None, depth=0):
         self.vars = dict(vars or {})            # python name -> type
         self.self_attrs = dict(self_attrs or {})  # attr -> (lean expr, type)
         self.elementwise = set(elementwise or [])  # names whose subscripts x[I] read as x
         self.agg = agg                          # lean expr for self.aggregator (Vec -> XR) or None
+        self.helpers = dict(helpers or {})      # callable name ("_ratio", "self._is_above") -> ast.FunctionDef
+        self.depth = depth                      # inlining depth
 
     def child(self):
-        c = Ctx(self.vars, self.self_attrs, self.elementwise, self.agg)
+        c = Ctx(self.vars, self.self_attrs, self.elementwise, self.agg, self.helpers, self.depth)
         return c
 
 
@@ -286,10 +288,37 @@ NP1 = {  # numpy function -> (lean fn, arg type, result type)
 }
 
 
+def inline_helper(fn, node, ctx):
+    """Call of a small helper function defined in the same module/class: its body is translated in place with
+    the parameters bound by `let` (helpers made by 'extract function' refactorings)."""
+    f = ctx.helpers[fn]
+    if ctx.depth > 3:
+        raise Untranslatable("helper nesting too deep at %s" % fn)
+    params = [a.arg for a in f.args.args]
+    if params and params[0] == "self":
+        params = params[1:]
+    if len(params) != len(node.args) or f.args.vararg or f.args.kwarg or f.args.defaults:
+        raise Untranslatable("helper %s: argument list" % fn)
+    args = [tr_expr(a, ctx) for a in node.args]
+    inner = Ctx(dict(zip(params, [t for _, t in args])), ctx.self_attrs, ctx.elementwise, ctx.agg, ctx.helpers,
+                ctx.depth + 1)
+    last = None
+    for rt in (NUM, BOOL, VEC):
+        try:
+            body = tr_block(f.body, inner, None, rt, False, 1)
+            lets = "".join("let %s := %s; " % (lname(p), e) for p, (e, _) in zip(params, args))
+            return "(%s(\n%s))" % (lets, body), rt
+        except Untranslatable as e:
+            last = e
+    raise Untranslatable("helper %s: %s" % (fn, last))
+
+
 def tr_call(node, ctx):
     fn = dotted(node.func)
     if node.keywords:
         raise Untranslatable("keyword arguments in call to %s" % fn)
+    if fn in ctx.helpers:
+        return inline_helper(fn, node, ctx)
     if fn == "self.aggregator":
         if ctx.agg is None or len(node.args) != 1:
             raise Untranslatable("aggregator")
